@@ -288,6 +288,9 @@ def run(pid):
         fl = [r for rs in pool.imap_unordered(gen_float, [(ctx.seed * 1000 + i, nf // 16, pid) for i in range(16)]) for r in rs]
     bad += core.validate_records(ctx, 'SpectraRec', fl, name='SpectraRec-float', chunk=2000)
     nb = bins_check(ctx, emd)
+    if pid == 'C10':
+        from .extras import histbins_leg
+        histbins_leg(ctx)
     ctx.cov['exhaustive'] = True
     ctx.cov['rule'] = ('every frequency/amplitude array of the shapes %s over frequency grid %s (below range incl. negative, on every edge, inside, '
                        'on the last edge, above) x amplitudes %s x edge sets %s x {amplitude, energy}%s; plus %d random float instances with '
